@@ -46,7 +46,7 @@ def check_default_instant(fb, chk, rule):
 
 
 def run(ctx, chk):
-    fb = ctx.facts('dev')
+    fb = ctx.facts()
     chk.explanation = ('P1: the poller\'s initial instant is now - c, c >= 5 s. P2: is_within_grace_period() is '
                        'elapsed(last good answer) < 5 s. P3: that instant is assigned only on the reply-is-Tracking arm. '
                        'P4: message table of one loop iteration over reply x (PHC configured and ref-id equal) x sysfs read x '
